@@ -483,6 +483,33 @@ func refusedSkewCases(c *Ctx, skews []uint64) []vtotpCase {
 	return out
 }
 
+// c03NeighbourHistory: validation on one goroutine alternating between a key and its minimal neighbours
+// (gen.NeighbourKeys); each key is offered its own code and the other key's code at the same counter.
+func c03NeighbourHistory(c *Ctx) {
+	rng := c.RNG.Fork(313)
+	for rep := 0; rep < c.N(1, 6); rep++ {
+		for _, n := range gen.NeighbourKeyLengths {
+			keys := gen.NeighbourKeys(rng, n)
+			ctr := gen.Counter(rng)
+			if ctr > 1<<63 {
+				ctr >>= 1
+			}
+			d, a := uint8(6+rng.Intn(5)), uint8(rng.Intn(3))
+			skew := uint64(rng.Intn(3))
+			call := func(k, other []byte) {
+				subs := []string{ref.HOTP(k, ctr, int(d), int(a)), ref.HOTP(other, ctr, int(d), int(a))}
+				judgeVHOTP(c, vhotpCase{KeyHex: hexs(k), Secret: ref.Base32EncodeNoPad(k), Counter: ctr, Skew: skew, Digits: d, Algo: a, Submitted: hexAll(subs), Notes: []string{"own code (neighbour-key history)", "code of a key differing minimally (neighbour-key history)"}})
+				c.R.Count("neighbour_key_history_calls", 1)
+			}
+			for _, v := range keys[1:] {
+				call(keys[0], v)
+				call(v, keys[0])
+			}
+			call(keys[0], keys[1])
+		}
+	}
+}
+
 func runC04(c *Ctx) {
 	bt := newBatcher(c, judgeVTOTP, 97)
 	c04Cases(c, bt.add)
@@ -557,6 +584,7 @@ func init() {
 			b := newBatcher(c, judgeVHOTP, 0)
 			c03Cases(c, b.add)
 			b.flush()
+			c03NeighbourHistory(c)
 		},
 		Replay: func(c *Ctx, kind string, raw json.RawMessage) error {
 			return replayAs(raw, func(k vhotpCase) { judgeVHOTP(c, k) })
